@@ -116,7 +116,11 @@ def check(repo: Repo, rep: Report) -> None:
         "OnError" in kinds and any("== '#'" in x for x in kinds["OnError"][1]) and "OnNext" in kinds and \
         all(k[0] == me.params[0] for k in kinds.values())
     rep.ob("M3-emission", me, f"map_element: {sorted(kinds)}", ok, "`|` / `#` / values are not mapped to completion / error / on_next at the given time")
-    val = [s for s in sites(me) if isinstance(s.node, ast.Assign) and "lookup_.get" in u(s.node.value)]
+    pf = repo.fn(M, "parse")
+    lk = {"lookup"} | {t.id for n in pf.direct_nodes() if isinstance(n, ast.Assign) and any(isinstance(x, ast.Name) and x.id == "lookup" for x in ast.walk(n.value))
+                       for t in n.targets if isinstance(t, ast.Name)}
+    val = [s for s in sites(me) if isinstance(s.node, ast.Assign) and isinstance(s.node.value, ast.Call) and isinstance(s.node.value.func, ast.Attribute)
+           and s.node.value.func.attr == "get" and dotted(s.node.value.func.value) in lk]
     num = [s for s in sites(me) if isinstance(s.node, ast.Assign) and "try_number" in u(s.node.value)]
     rep.ob("M3-emission", me, "value = lookup.get(try_number(element), ...)", bool(val) and bool(num) and num[0].index < val[0].index,
            "values are not parsed as numbers and then mapped through the lookup")
